@@ -35,7 +35,7 @@ class C06(Check):
         "simulated MPI worlds of 2, 3, 4, 5 and 8 ranks run the library's real MPI code paths for drivers {catalog creation "
         "from DataFrame / HDF5 / FITS / Parquet / random generator with given centres, an index column or generated centres, reopen (with and without metadata "
         "computation), build_trees, crosscorrelate, autocorrelate, HistData.from_catalog, CorrFunc/CorrData/Configuration "
-        "file round trips} x max_workers {None, 1, 2, size, size+1} x send completion {eager, rendezvous} x scheduler policy "
+        "file round trips, the task iterator called directly with and without rank0_node_only} x max_workers {None, 1, 2, size, size+1} x send completion {eager, rendezvous} x scheduler policy "
         "{random, fifo, lifo, newest-sender, sentinel-first, starve a rank} x placement of the ranks on nodes {single node, block, "
         "round-robin} x progress display on/off x seeds. Per run: no logical deadlock, no rank "
         "raising where the single-process run does not, executed tasks == submitted tasks as multisets, records read == "
